@@ -35,7 +35,7 @@ import (
 
 // contract keywords introduced here (registered from this file so that contract.go stays untouched)
 func init() {
-	for _, k := range []string{"nostrlen", "opaque_strings", "merge_branches", "opaque_field_addrs"} {
+	for _, k := range []string{"nostrlen", "opaque_strings", "merge_branches", "opaque_field_addrs", "sort_forward_only"} {
 		clauseKeywords[k] = true
 	}
 	// one more member of the solver race (second stage only: its name does not match the first-stage filter
@@ -622,7 +622,11 @@ func (e *Engine) permute(s *State, sl Term, elem types.Type, hint string) (narr,
 	ax3 := fmt.Sprintf("(forall ((j Int)) (! (=> (or (< j %s) (>= j (+ %s %s))) (= (select %s j) (select %s j))) :pattern ((select %s j))))",
 		off.S, off.S, ln.S, narr.S, oldArr.S, narr.S)
 	s.assume(Term{ax1, SBool})
-	s.assume(Term{ax2, SBool})
+	if e.rootContract == nil || e.rootContract.Flags["sort_forward_only"] == "" {
+		// `sort_forward_only` on the root drops this half (every old element occurs in the result): fewer
+		// assumptions, for roots that only need "every element of the result is an old element"
+		s.assume(Term{ax2, SBool})
+	}
 	s.assume(Term{ax3, SBool})
 	if tf := e.elemFactsQuant(narr, elem); tf.S != "true" {
 		s.assume(tf)
